@@ -20,10 +20,12 @@ type c05Case struct {
 	Branch *model.Branch  `json:"branch,omitempty"`
 	StopAt int            `json:"stopAt"` // -1: no stop
 	Sp     model.Spelling `json:"spelling"`
-	PreOps []string       `json:"preOps,omitempty"` // From-Root entries: earlier operations on the same node tree
-	Late   int            `json:"late,omitempty"`   // iterator entries: the last Late nodes are added after the iterator was created
-	Twice  bool           `json:"twice,omitempty"`  // iterator entries: the same iterator value is ranged over a second time
-	CbErr  int            `json:"cbErr,omitempty"`  // callback entries: which error value the callback returns (ops.CallbackErr)
+	PreOps []string       `json:"preOps,omitempty"`    // From-Root entries: earlier operations on the same node tree
+	Late   int            `json:"late,omitempty"`      // iterator entries: the last Late nodes are added after the iterator was created
+	Twice  bool           `json:"twice,omitempty"`     // iterator entries: the same iterator value is ranged over a second time
+	Nest   int            `json:"nest,omitempty"`      // iterator entries: k>0 = a second walk of the same tree runs while the first is at visit k-1
+	NestBr bool           `json:"nestBreak,omitempty"` // ... and is left after its first visit
+	CbErr  int            `json:"cbErr,omitempty"`     // callback entries: which error value the callback returns (ops.CallbackErr)
 }
 
 func init() { registerReplay("c05", c05Check) }
@@ -61,6 +63,7 @@ func c05Check(c c05Case) string {
 		}
 		cs.Faults.BreakAt = c.StopAt
 		cs.RangeTwice = c.Twice
+		cs.Nest, cs.NestBreak = c.Nest, c.NestBr
 	}
 	res := ops.DefaultEnv.Run(&cs)
 	head := fmt.Sprintf("forest %s entry=%s branch=%+v stopAt=%d\n", c.Forest, c.Entry, c.Branch, c.StopAt)
@@ -89,6 +92,15 @@ func c05Check(c c05Case) string {
 			}
 		} else if v.Row != v.Branch+" "+v.Name {
 			return fmt.Sprintf("%svisit %d: Row %q != Branch+\" \"+Name (%q, %q)", head, i, v.Row, v.Branch, v.Name)
+		}
+	}
+	if strings.HasPrefix(c.Entry, "iter") && c.Nest > 0 && c.Nest-1 < len(want) {
+		wantInner := len(facts)
+		if c.NestBr {
+			wantInner = 1
+		}
+		if res.InnerVisits != wantInner {
+			return fmt.Sprintf("%sa second walk of the same tree, run while the first one was at visit %d, made %d visits; want %d", head, c.Nest-1, res.InnerVisits, wantInner)
 		}
 	}
 	if c.Twice && strings.HasPrefix(c.Entry, "iter") && res.SecondVisits != len(facts) {
@@ -152,7 +164,7 @@ func c05Record(col *collector, c c05Case) {
 	if d := model.Merge(c.Forest).Depth(); d >= 18 {
 		cl = append(cl, "depth>=18")
 	}
-	col.eval(nontrivial, hash64(c.Forest.String(), c.Entry, fmt.Sprint(c.Branch, c.StopAt, c.PreOps, c.Late, c.Twice, c.CbErr), model.Spell(c.Forest, c.Sp)), cl...)
+	col.eval(nontrivial, hash64(c.Forest.String(), c.Entry, fmt.Sprint(c.Branch, c.StopAt, c.PreOps, c.Late, c.Twice, c.CbErr, c.Nest, c.NestBr), model.Spell(c.Forest, c.Sp)), cl...)
 	col.sample(func() any {
 		return map[string]any{"forest": c.Forest.String(), "entry": c.Entry, "stopAt": c.StopAt, "branch": c.Branch}
 	})
@@ -181,6 +193,9 @@ func TestC05Exhaustive(t *testing.T) {
 					sp = model.Plain2
 				}
 				c := c05Case{Forest: f, Entry: e, Branch: branchPanel[rot%len(branchPanel)], StopAt: k, Sp: sp, Twice: rot%2 == 0, CbErr: (rot / 2) % 8}
+				if strings.HasPrefix(e, "iter") && rot%3 == 0 {
+					c.Nest, c.NestBr = 1+rot%n, rot%2 == 1
+				}
 				c05Record(col, c)
 				if msg := c05Check(c); msg != "" {
 					violation(t, "C05", "c05", c, msg)
@@ -223,6 +238,10 @@ func c05Gen() *rapid.Generator[c05Case] {
 		c.Twice = strings.HasPrefix(entry, "iter") && rapid.IntRange(0, 2).Draw(t, "twice") == 0
 		if !strings.HasPrefix(entry, "iter") && c.StopAt >= 0 {
 			c.CbErr = rapid.IntRange(0, 7).Draw(t, "cbErr")
+		}
+		if strings.HasPrefix(entry, "iter") && rapid.IntRange(0, 2).Draw(t, "nested") == 0 {
+			c.Nest = 1 + rapid.IntRange(0, model.Merge(f).Count()-1).Draw(t, "nestAt")
+			c.NestBr = rapid.Bool().Draw(t, "nestBreak")
 		}
 		if strings.HasPrefix(entry, "iter") && rapid.IntRange(0, 2).Draw(t, "late") == 0 {
 			c.Late = rapid.IntRange(1, 5).Draw(t, "nlate")
